@@ -64,7 +64,8 @@ impl Property for C15 {
                 // force a hint inside a number of the unhinted stream
                 if force < 128 && !tokens.is_empty() {
                     let plain: Vec<Tk> = tokens.iter().enumerate().map(|(i, t)| Tk::new(i, &t.0)).collect();
-                    let occ = find_numbers(plain.iter(), lang_ref(&lang), 0.0);
+                    // (generation must not die if the library panics on this stream: that is for the check to report)
+                    let occ = std::panic::catch_unwind(std::panic::AssertUnwindSafe(|| find_numbers(plain.iter(), lang_ref(&lang), 0.0))).unwrap_or_default();
                     let inner: Vec<usize> = occ.iter().flat_map(|o| (o.start + 1..o.end).collect::<Vec<_>>()).filter(|&i| !scanner_skips(&tokens[i].0)).collect();
                     if !inner.is_empty() {
                         let i = inner[idx(pos, inner.len())];
